@@ -67,6 +67,12 @@ pub trait Prop {
     /// How cases are enumerated and what makes one non-trivial.
     fn rule(&self) -> String;
     fn assumptions(&self) -> Vec<String>;
+    /// Does a reproducible process abort / hang of the subject on a case violate *this* property's
+    /// statement?  (C01, C19 and the "record is returned" properties: yes.  Everything else: the case is
+    /// outside the statement, the run ends without a verdict - exit 2 - and C01 / C19 decide it.)
+    fn abort_is_violation(&self) -> bool {
+        false
+    }
 }
 
 // ------------------------------------------------------------------------------------------------
@@ -392,6 +398,17 @@ impl Cx {
             }
         }
         res
+    }
+    /// `build` for properties whose statement does not speak about panics: a failing add is noted
+    /// (undecided, inside C01's domain) and the case is dropped.
+    pub fn build_noted(&mut self, l: L, recs: &[Rec], limit: Option<usize>, markers: Option<(&str, &str)>) -> Option<St> {
+        match self.build(l, recs, limit, markers) {
+            Ok(st) => Some(st),
+            Err(p) => {
+                self.undecided(&p, || format!("building the store lang={} records={:?}", l.tag(), recs));
+                None
+            }
+        }
     }
     /// Search through the real tokeniser + store.  `recs` etc. are only used to describe the case.
     pub fn search(&mut self, st: &mut St, q: &str) -> Result<Hits, PanicInfo> {
@@ -891,7 +908,14 @@ pub fn supervisor_main(prop: &dyn Prop, cfg: RunCfg) -> i32 {
     let mut vsigs = sh.total.vsigs.clone();
     for c in &sh.crashes {
         let kind = c["kind"].as_str().unwrap_or("abort");
-        let sig = format!("{}:{}@{}", if cfg.c01 || kind == "hang" { "C01" } else { "process" }, kind, c["dom"].as_str().unwrap_or(""));
+        if !prop.abort_is_violation() {
+            sh.machinery_errors.push(format!(
+                "the subject killed the process ({}) at {}[{}] ({}); that is outside this property's statement - no verdict from this check, C01 / C19 decide it",
+                kind, c["dom"].as_str().unwrap_or(""), c["idx"], c["mark"].as_str().unwrap_or("")
+            ));
+            continue;
+        }
+        let sig = format!("{}:{}@{}", cfg.prop_id, kind, c["dom"].as_str().unwrap_or(""));
         *vsigs.entry(sig.clone()).or_insert(0) += 1;
         violations.push(Violation { sig, dom: c["dom"].as_str().unwrap_or("").to_string(), idx: c["idx"].as_u64().unwrap_or(0), detail: c.clone() });
     }
